@@ -199,7 +199,7 @@ def gen_model(seed):
                 # a user's argument may carry a name the generated wrapper text uses itself
                 k = r.below(len(args))
                 args[k] = (args[k][0], r.pick(["container", "context", "instance", "vtbl", "ret"]))
-            ret = r.pick(["void"] + SCALARS + (["struct ArgPair", "const uint8_t *"] if rich else []))
+            ret = r.pick(["void"] + SCALARS + (["struct ArgPair", "const uint8_t *", "void *"] if rich else []))
             fname = "%s_f%d" % (name.lower(), fi)
             if shared_name and fi == 0:
                 fname = "common_op"
